@@ -202,4 +202,10 @@ def split_array(data, f_sample_num=None, t_sample_num=None,
     if f_trim:
         split_data = list(filter(lambda A: A.shape[1] == f_sample_num,
                                  split_data))
+    if len(set(A.shape for A in split_data)) > 1:
+        # Tiles at ragged edges differ in shape and can't form one rectangular array
+        split_array_obj = np.empty(len(split_data), dtype=object)
+        for i, A in enumerate(split_data):
+            split_array_obj[i] = A
+        return split_array_obj
     return np.array(split_data)
